@@ -394,3 +394,102 @@ Fixpoint bytes_of_string (s : string) : bytes :=
   | EmptyString => []
   | String a r => N_of_ascii a :: bytes_of_string r
   end.
+
+(* ------------------------------------------------------------------ *)
+(* the request on the wire (request_encoder.go.tpl, client side, and     *)
+(* request_decoder.go.tpl, server side), with the NAMES of the places    *)
+
+Inductive place :=
+| PHeader (name : string)      (* canonical header name; implicit credentials: "Authorization" *)
+| PQuery (name : string)
+| PBody (name : string)        (* attribute of a body object *)
+| PBodyWhole.                  (* Body("attr"): the body is this value *)
+
+(* a credential attribute the client payload has set: where it goes, its value *)
+Record field := { f_attr : cattr; f_place : place; f_val : bytes }.
+
+(* net/http Header.Set / url.Values.Add / the JSON body, as logs of writes: for headers the LAST
+   write to a name is the value of the header (Set replaces), for the query the FIRST Add is what
+   r.URL.Query().Get returns *)
+Record wire := { w_hdr : list (string * bytes); w_qry : list (string * bytes);
+                 w_body : list (string * bytes); w_whole : option bytes }.
+
+Definition authorization : string := "Authorization".
+Definition basic_word : bytes := [66; 97; 115; 105; 99; 32]%N.   (* "Basic " *)
+
+Definition get_last (n : string) (log : list (string * bytes)) : option bytes :=
+  match find (fun kv => String.eqb (fst kv) n) (rev log) with Some kv => Some (snd kv) | None => None end.
+Definition get_first (n : string) (log : list (string * bytes)) : option bytes :=
+  match find (fun kv => String.eqb (fst kv) n) log with Some kv => Some (snd kv) | None => None end.
+
+(* isBearer: some JWT / OAuth2 scheme of the requirements reads the Authorization header *)
+Definition place_of (P : list (cattr * place)) (a : cattr) : place :=
+  match find (fun ap => match fst ap, a with
+                        | AKey n, AKey m => String.eqb n m
+                        | AToken, AToken | AAToken, AAToken => true
+                        | _, _ => false end) P with
+  | Some ap => snd ap
+  | None => PHeader authorization      (* unmapped: implicit Authorization header *)
+  end.
+
+Definition is_auth_header (pl : place) : bool :=
+  match pl with PHeader n => String.eqb n authorization | _ => false end.
+
+Definition bearer_auth (P : list (cattr * place)) (reqs : list requirement) : bool :=
+  existsb (fun s => match s_kind s, attr_of s with
+                    | JWT, Some a | OAuth2, Some a => is_auth_header (place_of P a)
+                    | _, _ => false end) (flat_map r_schemes reqs).
+
+(* the writes the generated client performs for the set credential fields, in payload order,
+   then SetBasicAuth (which overwrites Authorization); None: refused (':' in the user name) *)
+Definition hdr_write (bearer_a : bool) (f : field) : list (string * bytes) :=
+  match f_place f with
+  | PHeader n => [(n, add_prefix (bearer_a && String.eqb n authorization) (f_val f))]
+  | _ => []
+  end.
+Definition qry_write (f : field) : list (string * bytes) :=
+  match f_place f with PQuery n => [(n, f_val f)] | _ => [] end.
+Definition body_write (f : field) : list (string * bytes) :=
+  match f_place f with PBody n => [(n, f_val f)] | _ => [] end.
+Definition whole_write (f : field) : list bytes :=
+  match f_place f with PBodyWhole => [f_val f] | _ => [] end.
+
+Definition encode_wire (bearer_a : bool) (basic : option (bytes * bytes)) (fs : list field) : option wire :=
+  let basic_hdr := match basic with
+                   | None => Some []
+                   | Some (u, pw) => if has_colon u then None else Some [(authorization, basic_word ++ basic_join u pw)]
+                   end in
+  match basic_hdr with
+  | None => None
+  | Some bh => Some {| w_hdr := flat_map (hdr_write bearer_a) fs ++ bh;
+                       w_qry := flat_map qry_write fs;
+                       w_body := flat_map body_write fs;
+                       w_whole := last (map Some (flat_map whole_write fs)) None |}
+  end.
+
+(* the server reads one credential attribute from its place; `stripped`: the attribute belongs
+   to a header scheme (strip_fields), so a prefix is removed when the value holds a space *)
+Definition orempty (o : option bytes) : bytes := match o with Some v => v | None => [] end.
+
+Definition decode_place (pl : place) (stripped : bool) (w : wire) : bytes :=
+  match pl with
+  | PHeader n => let v := trim (orempty (get_last n (w_hdr w))) in if stripped then strip_prefix v else v
+  | PQuery n => orempty (get_first n (w_qry w))
+  | PBody n => orempty (get_first n (w_body w))
+  | PBodyWhole => orempty (w_whole w)
+  end.
+
+(* r.BasicAuth on the Authorization header *)
+Fixpoint drop_prefix (pre v : bytes) : option bytes :=
+  match pre, v with
+  | [], _ => Some v
+  | a :: pre', b :: v' => if N.eqb a b then drop_prefix pre' v' else None
+  | _ :: _, [] => None
+  end.
+Definition decode_basic (w : wire) : option (bytes * bytes) :=
+  match get_last authorization (w_hdr w) with
+  | Some v => match drop_prefix basic_word v with Some r => cut_colon r | None => None end
+  | None => None
+  end.
+
+Definition is_header_place (pl : place) : bool := match pl with PHeader _ => true | _ => false end.
